@@ -1,9 +1,9 @@
 from tsv.driver import run_check
 from .splines_common import spline_harnesses, NOT_DECIDED_CUBIC_INVERSE
-from . import extra_C09
+from . import extra_C17
 
 
 def run(tier, seed, update_ledger=False, only=None, jobs=None):
-    hs = spline_harnesses({"C09"}, tier) + extra_C09.harnesses(tier)
+    hs = spline_harnesses({"C17"}, tier) + extra_C17.harnesses(tier)
     hs = [h for h in hs if not only or only in h.hid]
-    return run_check("C09", hs, tier=tier, seed=seed, update_ledger=update_ledger, jobs=jobs, **extra_C09.META)
+    return run_check("C17", hs, tier=tier, seed=seed, update_ledger=update_ledger, jobs=jobs, **extra_C17.META)
